@@ -71,6 +71,8 @@ Section Policy.
     forall r ok m st, In (IReq r ok m st) (r_tr (apply_one sc pl g s p)) -> In (IReq r ok m st) (r_tr s).
   Proof.
     intros NP r ok m st. unfold apply_one. destruct (p_local p) as [l|]; [|auto].
+    destruct (negb (kind_known sc (r_known s) (p_id p))).
+    { cbn. intros [H|H]; [discriminate|exact H]. }
     pose proof (get_obj_tr_policy s (p_id p)) as T.
     destruct (policy_apply_filter sc s (p_id p)) as [s1 f1]. cbn [snd fst] in *.
     destruct f1; [congruence| |]; cbn; intros [H|H]; try discriminate; rewrite T in H; exact H.
